@@ -82,6 +82,40 @@ func GlobMatch(pattern, name string) bool {
 	return pi == len(p)
 }
 
+// GlobMatchLower is GlobMatch with characters compared by their lower-case mapping instead of
+// simple case folding (σ ≠ ς, K ≠ K): classification only.
+func GlobMatchLower(pattern, name string) bool {
+	lower := func(s string) string {
+		rs := []rune(s)
+		for i, r := range rs {
+			rs[i] = unicode.ToLower(r)
+		}
+		return string(rs)
+	}
+	p, s := []rune(lower(pattern)), []rune(lower(name))
+	pi, si, star, mark := 0, 0, -1, 0
+	for si < len(s) {
+		switch {
+		case pi < len(p) && p[pi] == '*':
+			star, mark = pi, si
+			pi++
+		case pi < len(p) && p[pi] == s[si]:
+			pi++
+			si++
+		case star >= 0:
+			pi = star + 1
+			mark++
+			si = mark
+		default:
+			return false
+		}
+	}
+	for pi < len(p) && p[pi] == '*' {
+		pi++
+	}
+	return pi == len(p)
+}
+
 // GlobMatchUnanchored is the *defective* variant used only to classify a disagreement: the
 // pattern's literal pieces are located leftmost-first and whatever follows the last piece is
 // ignored (`*a` matches `ab`). It is never used to judge.
@@ -198,8 +232,11 @@ type Expander struct {
 	closed []*gGlob
 	seq    int
 	root   *gBoard
-	// creating is the glob whose application is creating connections right now
-	lazy bool
+	lazy   bool
+	// during one creation event: which glob set which attribute of which target
+	fireSet map[string]*gGlob
+	cur     *gGlob
+	deleted map[string]bool
 }
 
 func isPattern(seg string) bool { return strings.Contains(seg, "*") }
@@ -247,6 +284,9 @@ func (x *Expander) ensure(from *gObj, path []string) *gObj {
 			k = &gObj{name: seg, parent: o, board: o.board, attrs: map[string]string{}}
 			o.kids = append(o.kids, k)
 			x.info.Objects++
+			if x.deleted[strings.ToLower(strings.Join(absPath(k), "\x1f"))] && len(x.active) > 0 {
+				x.feat("deleted_object_recreated_while_glob_active")
+			}
 			o.board.emit(&gen.LStmt{Key: absPath(k)})
 			x.fire()
 		}
@@ -331,8 +371,24 @@ func setAttr(o *gObj, tail []string, v *gen.LVal) {
 }
 
 // assignObj emits `abs(o).tail: v` (or `abs(o): v` for the primary) and the body's attributes.
+func (x *Expander) noteLazy(target string, tail []string) {
+	if x.fireSet == nil || x.cur == nil {
+		return
+	}
+	k := target + "\x1e" + strings.Join(tail, ".")
+	if g, ok := x.fireSet[k]; ok && g != x.cur {
+		x.feat("new_target_attribute_set_by_two_globs")
+		bodyForm := func(g *gGlob) bool { return len(g.stmt.Body) > 1 }
+		if bodyForm(g) {
+			x.feat("new_target_attribute_set_by_two_globs_earlier_has_multi_field_body")
+		}
+	}
+	x.fireSet[k] = x.cur
+}
+
 func (x *Expander) assignObj(o *gObj, tail []string, v *gen.LVal, body []*gen.LStmt) {
 	if v != nil {
+		x.noteLazy("o:"+strings.Join(absPath(o), "."), tail)
 		o.board.emit(&gen.LStmt{Key: join(absPath(o), tail...), Val: v.Clone()})
 		setAttr(o, tail, v)
 	}
@@ -340,6 +396,7 @@ func (x *Expander) assignObj(o *gObj, tail []string, v *gen.LVal, body []*gen.LS
 		if b.Raw != "" || b.IsEdge() {
 			continue
 		}
+		x.noteLazy("o:"+strings.Join(absPath(o), "."), join(tail, b.Key...))
 		o.board.emit(&gen.LStmt{Key: join(absPath(o), join(tail, b.Key...)...), Val: b.Val.Clone()})
 		setAttr(o, join(tail, b.Key...), b.Val)
 	}
@@ -355,7 +412,9 @@ func edgeStmt(e *gEdge, withIdx bool) *gen.LStmt {
 
 func (x *Expander) assignEdge(e *gEdge, tail []string, v *gen.LVal, body []*gen.LStmt) {
 	b := e.cont.board
+	ek := "e:" + strings.Join(absPath(e.src), ".") + e.arrow + strings.Join(absPath(e.dst), ".") + strconv.Itoa(e.index)
 	if v != nil {
+		x.noteLazy(ek, tail)
 		s := edgeStmt(e, true)
 		s.EKey = append([]string(nil), tail...)
 		s.Val = v.Clone()
@@ -365,6 +424,7 @@ func (x *Expander) assignEdge(e *gEdge, tail []string, v *gen.LVal, body []*gen.
 		if bs.Raw != "" || bs.IsEdge() {
 			continue
 		}
+		x.noteLazy(ek, join(tail, bs.Key...))
 		s := edgeStmt(e, true)
 		s.EKey = join(tail, bs.Key...)
 		s.Val = bs.Val.Clone()
@@ -471,6 +531,20 @@ func (x *Expander) newEdge(scope, src, dst *gObj, arrow string, creator *gGlob, 
 	cont.board.edges = append(cont.board.edges, e)
 	x.info.Edges++
 	cont.board.emit(edgeStmt(e, false))
+	oldLazy := x.lazy
+	if creator == nil {
+		x.lazy = true
+	}
+	ownSet := x.fireSet == nil
+	if ownSet {
+		x.fireSet = map[string]*gGlob{}
+	}
+	defer func() {
+		x.lazy = oldLazy
+		if ownSet {
+			x.fireSet = nil
+		}
+	}()
 	done := false
 	for _, g := range x.active {
 		if g == creator {
@@ -526,6 +600,9 @@ func (x *Expander) applyEdgeRef(g *gGlob, e *gEdge) {
 		return
 	}
 	g.appliedEdge[e] = true
+	saved := x.cur
+	x.cur = g
+	defer func() { x.cur = saved }()
 	x.info.EdgeRefApplied++
 	if x.lazy {
 		x.feat("lazy_edge_ref_application")
@@ -536,6 +613,9 @@ func (x *Expander) applyEdgeRef(g *gGlob, e *gEdge) {
 // apply (re-)evaluates glob g over its whole scope and acts on every target it has not acted
 // on yet.
 func (x *Expander) apply(g *gGlob) {
+	saved := x.cur
+	x.cur = g
+	defer func() { x.cur = saved }()
 	switch g.kind {
 	case gkField:
 		for _, o := range x.matchPath(g.scope, g.objSegs) {
@@ -588,12 +668,13 @@ func (x *Expander) apply(g *gGlob) {
 func (x *Expander) fire() {
 	old := x.lazy
 	x.lazy = true
+	if x.fireSet == nil {
+		x.fireSet = map[string]*gGlob{}
+		defer func() { x.fireSet = nil }()
+	}
 	for _, g := range x.active {
 		if g.filtered {
-			// d2 re-evaluates a filtered glob on every later creation event against the state
-			// of that moment; the statement says nothing about it: not judged
-			x.unjudged("filtered_glob_followed_by_creation")
-			continue
+			continue // program is unjudged already (see block)
 		}
 		x.apply(g)
 	}
@@ -694,6 +775,13 @@ func (x *Expander) declareGlob(s *gen.LStmt, cur *gObj) {
 	g := &gGlob{stmt: s, scope: cur, board: cur.board, seq: x.seq,
 		appliedObj: map[*gObj]bool{}, appliedEdge: map[*gEdge]bool{}, appliedPair: map[[2]*gObj]bool{}}
 	x.info.Globs++
+	for _, o := range x.active {
+		if o.scope == cur && gen.LRender([]*gen.LStmt{o.stmt}) == gen.LRender([]*gen.LStmt{s}) {
+			// d2 identifies glob declarations by key equality within a block: a repeated
+			// identical declaration shares the first one's "applied" set
+			x.feat("identical_glob_declaration_repeated")
+		}
+	}
 	for _, b := range s.Body {
 		if b.Tag == "filter" {
 			g.filtered = true
@@ -752,6 +840,9 @@ func (x *Expander) declareGlob(s *gen.LStmt, cur *gObj) {
 			g.idx = "*"
 		}
 		x.feat("edge_ref_glob")
+		if g.idx != "*" {
+			x.feat("edge_ref_glob_literal_index")
+		}
 		if literalMissing(cur, g.prefix) {
 			x.unjudged("glob_key_names_absent_object")
 		}
@@ -777,6 +868,23 @@ func (x *Expander) deleteObj(o *gObj) {
 	in := map[*gObj]bool{}
 	for _, q := range sub {
 		in[q] = true
+		x.deleted[strings.ToLower(strings.Join(absPath(q), "\x1f"))] = true
+	}
+	for _, g := range x.active {
+		for _, segs := range [][]string{g.objSegs, g.srcSegs, g.dstSegs, g.prefix} {
+			q := g.scope
+			for _, seg := range segs {
+				if isPattern(seg) || q == nil {
+					break
+				}
+				if q = q.child(seg); q != nil && in[q] {
+					x.feat("deleted_object_named_literally_by_active_glob")
+				}
+			}
+		}
+		if len(g.appliedObj) > 0 || len(g.appliedPair) > 0 {
+			x.feat("object_deleted_while_glob_active")
+		}
 	}
 	for _, e := range o.board.edges {
 		if in[e.src] || in[e.dst] || in[e.cont] {
@@ -795,6 +903,15 @@ func (x *Expander) deleteObj(o *gObj) {
 func (x *Expander) block(stmts []*gen.LStmt, cur *gObj) {
 	mark := len(x.active)
 	for _, s := range stmts {
+		if s.Raw == "" {
+			for _, g := range x.active {
+				if g.filtered {
+					// d2 re-evaluates a filtered glob on every later field or connection creation
+					// against the state of that moment; the statement is silent: not judged
+					x.unjudged("filtered_glob_followed_by_statement")
+				}
+			}
+		}
 		switch {
 		case s.Raw != "":
 			// comment
@@ -844,6 +961,11 @@ func (x *Expander) block(stmts []*gen.LStmt, cur *gObj) {
 				continue
 			}
 			if len(tail) > 0 {
+				if s.Val == nil && len(s.Body) == 0 {
+					// malformed on purpose or by shrinking: mirror it so that both sides fail
+					o.board.emit(&gen.LStmt{Key: join(absPath(o), tail...), HasBody: s.HasBody})
+					continue
+				}
 				x.assignObj(o, tail, s.Val, s.Body)
 				continue
 			}
@@ -911,12 +1033,26 @@ func Expand(prog []*gen.LStmt, match func(pattern, name string) bool) ([]*gen.LS
 	if match == nil {
 		match = GlobMatch
 	}
-	x := &Expander{Match: match, info: GlobInfo{Feat: map[string]int{}, Unjudged: map[string]int{}}}
+	x := &Expander{Match: match, info: GlobInfo{Feat: map[string]int{}, Unjudged: map[string]int{}}, deleted: map[string]bool{}}
 	b := &gBoard{name: "root"}
 	b.root = &gObj{board: b, attrs: map[string]string{}}
 	x.root = b
 	x.block(prog, b.root)
 	return boardStmts(b), x.info
+}
+
+// SigKeys returns the structural feature names used in violation signatures (pattern shapes
+// are left out: they are evidence, not triggers).
+func (i GlobInfo) SigKeys() []string {
+	var ks []string
+	for k := range i.Feat {
+		if strings.HasPrefix(k, "pattern_") && k != "pattern_double" && k != "pattern_triple" && k != "pattern_non_ascii" {
+			continue
+		}
+		ks = append(ks, k)
+	}
+	sort.Strings(ks)
+	return ks
 }
 
 // FeatKeys returns the sorted feature names (for signatures).
